@@ -27,6 +27,8 @@ TDIR = "tangelo/linq/translator/"
 GATE = "tangelo/linq/gate.py"
 
 T_MARK, T2_MARK, C_MARK, C2_MARK, P_MARK = 3, 4, 5, 7, 0.25
+# numeral classes a text format has to carry: plain decimal, negative with exponent notation, large with exponent notation, zero
+P_MARKS = [0.25, -1.5e-05, 3e+16, 0.0]
 
 
 class CircRec(Rec):
@@ -77,13 +79,13 @@ def _add_gate(obj, args, kwargs):
 CTORS = {"Gate": _gate_ctor, "Circuit": _circ_ctor, ("Circuit", "add_gate"): _add_gate}
 
 
-def sample_gate(name: str, sets, n_controls=1) -> Rec:
+def sample_gate(name: str, sets, n_controls=1, param=None) -> Rec:
     two = name in sets["TWO_TARGET_GATES"]
     tgt = [T_MARK, T2_MARK] if two else [T_MARK]
     ctl = None
     if name.startswith("C") and name not in ("CMEASURE",):
         ctl = [C_MARK] if n_controls == 1 else [C_MARK, C2_MARK]
-    par = P_MARK if name in sets["PARAMETERIZED_GATES"] else ""
+    par = (P_MARK if param is None else param) if name in sets["PARAMETERIZED_GATES"] else ""
     return Rec("Gate", {"name": name, "target": tgt, "control": ctl, "parameter": par, "is_variational": False})
 
 
@@ -101,7 +103,7 @@ def same_gate(a: Rec, b: Rec) -> Tuple[bool, str]:
         pb = ""
     if (pa == "") != (pb == ""):
         return False, f"parameter {pa!r} comes back as {pb!r}"
-    if pa != "" and abs(float(pa) - float(pb)) > 1e-12:
+    if pa != "" and abs(float(pa) - float(pb)) > 1e-12 * max(1.0, abs(float(pa))):
         return False, f"parameter {pa!r} comes back as {pb!r}"
     return True, ""
 
@@ -192,6 +194,9 @@ def _check_format(idx, rep, sets, fmt, wname, rname, relfile):
         g = sample_gate(name, sets)
         _roundtrip(rep, rule, fmt, writer, reader, g, name)
         n += 1
+        if g.fields["parameter"] != "":
+            for pm in P_MARKS[1:]:
+                _roundtrip(rep, rule, fmt, writer, reader, sample_gate(name, sets, param=pm), f"{name}({pm!r})")
         if g.fields["control"] is not None:
             g2 = sample_gate(name, sets, n_controls=2)
             r = _roundtrip(rep, "K5.multi-control", fmt, writer, reader, g2, f"{name} with two controls", multi=True)
@@ -283,6 +288,10 @@ def check_repr(idx, rep, sets):
         Rec("Gate", {"name": "RY", "target": [4], "control": None, "parameter": "alpha", "is_variational": False}),
         Rec("Gate", {"name": "CSWAP", "target": [1, 2], "control": [0], "parameter": "", "is_variational": False}),
         Rec("Gate", {"name": "X", "target": [0], "control": None, "parameter": "", "is_variational": False}),
+        Rec("Gate", {"name": "RZ", "target": [1], "control": None, "parameter": 0.0, "is_variational": False}),
+        Rec("Gate", {"name": "PHASE", "target": [0], "control": None, "parameter": 0, "is_variational": True}),
+        Rec("Gate", {"name": "CRX", "target": [2], "control": [0], "parameter": -2.5e-07, "is_variational": False}),
+        Rec("Gate", {"name": "XX", "target": [0, 3], "control": None, "parameter": 1e+20, "is_variational": False}),
     ]
     for g in samples:
         fo = Folder(ctors=CTORS)
